@@ -53,6 +53,9 @@ def faults_at(stream, pos, quick, rng):
     res.append(("strayFC", stream[:pos] + [(fid, b"\x30\x00\x00")] + stream[pos:]))
     res.append(("empty", stream[:pos] + [(fid, b"")] + stream[pos:]))
     res.append(("strayFF1", stream[:pos] + [(fid, b"\x10")] + stream[pos:]))
+    # a first frame announcing no more than it carries itself, then consecutive frames
+    res.append(("shortFF", stream[:pos] + [(fid, bytes([0x10, 3, 1, 2, 3, 4, 5, 6])), (fid, bytes([0x21, 9, 9, 9])),
+                                           (fid, bytes([0x22, 8, 8]))] + stream[pos:]))
     return res
 
 
